@@ -3,7 +3,7 @@
  * '?' / '#'.  The query loop accepts class != 2 plus '?' and '%': none of them may be in the special-query set
  * ('#' ends the query).  The fragment loop accepts class != 2 plus '?', '#', '%': none may be in the fragment set. */
 void harness(void) {
-  uint8_t c;
+  NONDET(uint8_t, c);
   uint8_t k = G_k_rest.a[c];
   __CPROVER_assert(k <= 2, "postcondition: class in {0,1,2}");
   __CPROVER_assert(k != 0 || (!SPEC_IN_PATH(c) && c != '\\' && c != '%' && c != '?' && c != '#'), "postcondition: path class 0 => verbatim-safe path byte");
